@@ -91,6 +91,14 @@ def generate(rng, tier, n):
             if 0 <= a <= b:
                 for k in range(N + 1):
                     cases.append(Case(f"(run (range {a} {b}) {k})", ("run", "range"), "exhaustive"))
+    # histories: ONE query object evaluated several times, earlier iterators left suspended (kept alive)
+    for _ in range(max(40, n // 2)):
+        kind = rng.choice(["exactly", "atLeast", "atMost", "range"])
+        v = rng.randrange(0, 5)
+        c = f"(range {v} {v + rng.randrange(0, 3)})" if kind == "range" else f"({kind} {v})"
+        nn = max(0, v + rng.randrange(-2, 3))
+        ks = [rng.choice([-1, 0, 1, 1, 2, 3]) for _ in range(rng.randrange(2, 5))]
+        cases.append(Case(f"(hist {c} {nn} {' '.join(map(str, ks))})", ("hist", kind), "random"))
     for _ in range(n):
         kind = rng.choice(["exactly", "atLeast", "atMost", "range"])
         v = rng.randrange(0, 60)
@@ -109,6 +117,8 @@ def nontrivial(case: Case, spec: str) -> bool:
     nums = [int(x) for x in re.findall(r"-?\d+", case.line)]
     if case.line.startswith("(run (none)"):
         return False
+    if case.line.startswith("(hist"):
+        return True
     if case.line.startswith("(run"):
         *bounds, n = nums
         return any(abs(n - b) <= 2 for b in bounds)
@@ -196,6 +206,25 @@ def _one(case: Case) -> str:
             x = let(_Item, [_Item(i) for i in range(n)])
             r = the(entity(x)).evaluate()
             return f"value {r.i}"
+        if s[0] == "hist":
+            c = _mk(s[1])
+            n = int(s[2])
+            x = let(_Item, [_Item(i) for i in range(n)])
+            q = an(entity(x), quantification=c) if c is not None else an(entity(x))
+            alive, outs = [], []
+            for k in (int(t) for t in s[3:]):
+                it = iter(q.evaluate())
+                alive.append(it)          # earlier evaluations stay suspended
+                got, seen = [], "open"
+                try:
+                    while k < 0 or len(got) < k:
+                        got.append(next(it).i)
+                except StopIteration:
+                    seen = "ok"
+                except Exception as e:  # noqa: BLE001
+                    seen = _exc_name(e)
+                outs.append("[" + ",".join(map(str, got)) + "] " + seen)
+            return " ; ".join(outs)
         if s[0] == "run":
             c = _mk(s[1])
             n = int(s[2])
